@@ -127,7 +127,12 @@ def s(trees, data=None, threshold=0.5, weighted=False, log_p_list=None):
             if isinstance(d, ast.Call) and call_name(d) == "click.option":
                 names += [a.value for a in d.args if isinstance(a, ast.Constant) and isinstance(a.value, str) and a.value.startswith("--")]
         w = prog.fn("process_trace.write_consensus_results")
-        ok = "--consensus-threshold" in names and "consensus_threshold" in w.params and any(any(k.arg is None for k in c.keywords) for c in calls(cons[0]))
+        from ..astutil import cli_forwards
+
+        ok = "--consensus-threshold" in names and "consensus_threshold" in w.params and cli_forwards(cons[0], "--consensus-threshold", "write_consensus_results", w.params, "consensus_threshold")[0]
+    if cons:
+        okw, whyw = cli_forwards(cons[0], "--weight-type", "write_consensus_results", w.params, "weight_type")
+        ctx.check(okw, "S2", "cli.consensus forwards --weight-type to write_consensus_results(weight_type=…)", "phyclone/cli.py:%d" % cons[0].lineno, "the command-line weighting does not reach write_consensus_results (%s)" % whyw, construct="phyclone.cli.consensus", stmt="--weight-type")
     ctx.check(ok, "S2", "cli.consensus forwards --consensus-threshold to write_consensus_results(consensus_threshold=…)", "phyclone/cli.py:%d" % (cons[0].lineno if cons else 0), "the command-line threshold does not reach write_consensus_results", construct="phyclone.cli.consensus", stmt="--consensus-threshold")
     ctx.analysed(f, g)
 
@@ -267,6 +272,9 @@ def run(ctx):
 _C = "phyclone/process_trace/consensus.py"
 _P = "phyclone/process_trace/process_trace.py"
 SELFTEST = [
+    {"name": "benign-cli-consensus-explicit-parameters", "kind": "benign", "file": "phyclone/cli.py", "old": "def consensus(**kwargs):\n    \"\"\"Build consensus results.\"\"\"\n    write_consensus_results(**kwargs)\n", "new": "def consensus(in_file, out_table_file, out_tree_file, consensus_threshold, weight_type):\n    \"\"\"Build consensus results.\"\"\"\n    write_consensus_results(in_file, out_table_file, out_tree_file, consensus_threshold=consensus_threshold, weight_type=weight_type)\n"},
+    {"name": "S2-cli-consensus-explicit-drops-weight-type", "kind": "break", "rule": "S2", "file": "phyclone/cli.py", "old": "def consensus(**kwargs):\n    \"\"\"Build consensus results.\"\"\"\n    write_consensus_results(**kwargs)\n", "new": "def consensus(in_file, out_table_file, out_tree_file, consensus_threshold, weight_type):\n    \"\"\"Build consensus results.\"\"\"\n    write_consensus_results(in_file, out_table_file, out_tree_file, consensus_threshold=consensus_threshold)\n"},
+    {"name": "S2-cli-consensus-threshold-swapped-with-weight", "kind": "break", "rule": "S2", "file": "phyclone/cli.py", "old": "def consensus(**kwargs):\n    \"\"\"Build consensus results.\"\"\"\n    write_consensus_results(**kwargs)\n", "new": "def consensus(in_file, out_table_file, out_tree_file, consensus_threshold, weight_type):\n    \"\"\"Build consensus results.\"\"\"\n    write_consensus_results(in_file, out_table_file, out_tree_file, weight_type, consensus_threshold)\n"},
     {"name": "S1-no-division", "kind": "break", "rule": "S1", "file": _C, "old": "            clades_counter[clade] = clades_counter[clade] / len(trees)", "new": "            clades_counter[clade] = clades_counter[clade]"},
     {"name": "S1-divide-by-clades", "kind": "break", "rule": "S1", "file": _C, "old": "            clades_counter[clade] = clades_counter[clade] / len(trees)", "new": "            clades_counter[clade] = clades_counter[clade] / len(clades_counter)"},
     {"name": "S1-weights-of-wrong-tree", "kind": "break", "rule": "S1", "file": _C, "old": "                clades_counter[clade] += log_p_list[i]", "new": "                clades_counter[clade] += log_p_list[0]"},
